@@ -85,7 +85,20 @@ def h_expression(eng):
     n = 1 + eng.choice(3)
     op_is_ref = bool(eng.choice(2))
     op = eng.input("operator", eng.fresh_str("op"))
-    operands = [A.prim(i) for i in range(n)]
+    # an operand is a literal or itself an expression (a negation, a difference, a sum): the element must mirror THIS node --
+    # its own operator, the elements of its own operands -- whatever the operands are
+    shapes = [eng.choice(4) for _ in range(n)] if n <= 2 else [0] * n
+    eng.input("operand_kinds", [["literal", "negation", "difference", "sum"][k_] for k_ in shapes])
+    operands = []
+    for i, k_ in enumerate(shapes):
+        if k_ == 0:
+            o = A.prim(i)
+        else:
+            inner = [A.prim(10 * (i + 1) + j) for j in range(1 if k_ == 1 else 2)]
+            for j, q in enumerate(inner):
+                ops.setitem(eng, g.fields["xml"], q, marker("op%d.inner%d" % (i, j)))
+            o = A.expr("+" if k_ == 3 else "-", *inner)
+        operands.append(o)
     kids = [marker("op%d" % i) for i in range(n)]
     for o, k in zip(operands, kids):
         ops.setitem(eng, g.fields["xml"], o, k)
